@@ -61,6 +61,17 @@ void sh_retag(int from, int to);
 /* SO_SNDBUF/SO_RCVBUF applied to TCP sockets the library creates (0 = leave) */
 void sh_set_bufsizes(int sndbuf, int rcvbuf);
 
+/* ---- one-shot faults (C06): the n-th (1-based) send()/recv() from now on a
+ * descriptor of `tag` fails with `err` without touching the kernel */
+void sh_fail_io_at(int tag, enum sh_dir dir, int n, int err);
+int sh_io_fault_hits(void);
+/* total number of bytes send() may still hand to the kernel on TCP sockets of
+ * `tag` (then EAGAIN); negative = unlimited */
+void sh_send_budget(int tag, long nbytes);
+long sh_send_budget_left(int tag);
+/* the next connect() on a TCP socket of `tag` fails at once with `err` */
+void sh_fail_next_connect(int tag, int err);
+
 /* ---- blocking-wait interruption (C03): the n-th (1-based) poll() with a
  * non-zero timeout issued inside an XCM call from now on returns -1/EINTR. */
 void sh_eintr_at(int n);
